@@ -33,13 +33,18 @@ def rows_agree(cx, a, b, tag):
     return z3.And(*out) if out else z3.BoolVal(True)
 
 
+# prediction-only variable of the joint model: normalised by the survival at the smallest requested age of the whole batch
+# (`x.value.min()`); `estimate` evaluates it for one individual at a time.  Not a term of the likelihood, not claimed row-local.
+NOT_ROW_LOCAL = {("joint", "predictions_event")}
+
+
 def linked_variables():
     from leaspy.variables.specs import LinkedVariable
     out = []
-    for label, (kind, kw) in D.KINDS.items():
+    for label, (kind, kw) in D.ALL_KINDS.items():
         m, specs = D.model_specs(kind, **kw)
         for name in specs:
-            if isinstance(specs[name], LinkedVariable):
+            if isinstance(specs[name], LinkedVariable) and (label, name) not in NOT_ROW_LOCAL:
                 out.append((label, name))
     return out
 
@@ -65,7 +70,7 @@ class LinkedRowLocality(Spec):
 
     def setup(self, cx, cfg):
         cx.assume(z3.And(D.n >= 1, D.v >= 1, 0 <= i0, i0 < D.n))
-        kind, kw = D.KINDS[cfg["kind"]]
+        kind, kw = D.ALL_KINDS[cfg["kind"]]
         var = D.model_specs(kind, **kw)[1][cfg["var"]]
         parents = sorted(var.get_ancestors_names())
         m, specs, lay, F, K = D.parent_layouts(cx, cfg["kind"], parents)
@@ -109,7 +114,7 @@ class Totals(Spec):
     def configs(self):
         out = []
         for label, name in linked_variables():
-            kind, kw = D.KINDS[label]
+            kind, kw = D.ALL_KINDS[label]
             specs = D.model_specs(kind, **kw)[1]
             parents = sorted(specs[name].get_ancestors_names())
             if len(parents) == 1 and parents[0] == name + "_ind":
@@ -123,7 +128,7 @@ class Totals(Spec):
 
     def setup(self, cx, cfg):
         cx.assume(z3.And(D.n >= 1, D.v >= 1))
-        kind, kw = D.KINDS[cfg["kind"]]
+        kind, kw = D.ALL_KINDS[cfg["kind"]]
         var = D.model_specs(kind, **kw)[1][cfg["var"]]
         parents = sorted(var.get_ancestors_names())
         m, specs, lay, F, K = D.parent_layouts(cx, cfg["kind"], parents)
@@ -133,12 +138,19 @@ class Totals(Spec):
     def post(self, cx, st, out):
         r = D.tensor_of(out.value)
         cfg = st["cfg"]
+        def over_rest(t, i):
+            """sum of t[i, ...] over the trailing (cluster) axes, which have concrete sizes"""
+            import itertools as _it
+            sizes = t.shape_[1:]
+            if not all(isinstance(d_, int) for d_ in sizes):
+                return None
+            return sum((t.fn((i,) + tuple(z3.IntVal(q) for q in rest)) for rest in _it.product(*[range(d_) for d_ in sizes])), z3.RealVal(0))
         if cfg["what"] == "total":
             p = D.tensor_of(st["s1"][st["parents"][0]])
-            ok = isinstance(r, STensor) and r.ndim == 0 and p.ndim == 1
-            res = [("a scalar total of a per-individual vector", z3.BoolVal(ok))]
+            ok = isinstance(r, STensor) and r.ndim == 0 and p.ndim >= 1 and over_rest(p, z3.IntVal(0)) is not None
+            res = [("a scalar total of per-individual terms (one per individual, or one per individual and cluster)", z3.BoolVal(ok))]
             if ok:
-                res.append(("total = sum of the per-individual terms", r.fn(()) == sigma_term(cx, lambda i: p.fn((i,)), D.n)))
+                res.append(("total = sum of the per-individual terms", r.fn(()) == sigma_term(cx, lambda i: over_rest(p, i), D.n)))
             return res
         # nll_regul_ind_sum_ind: sum over the individual latent variables
         from leaspy.variables.specs import IndividualLatentVariable
@@ -146,13 +158,14 @@ class Totals(Spec):
         want_parents = sorted(f"nll_regul_{nm_}_ind" for nm_ in ind_vars)
         res = [("depends on exactly the per-individual regularities of the individual latent variables",
                 z3.BoolVal(st["parents"] == want_parents))]
-        ok = isinstance(r, STensor) and r.ndim == 1
-        res.append(("a per-individual vector", z3.BoolVal(ok)))
+        ps = [D.tensor_of(st["s1"][p]) for p in st["parents"]]
+        ok = isinstance(r, STensor) and r.ndim >= 1 and all(p.ndim == r.ndim for p in ps)
+        res.append(("per-individual terms (same layout as every parent: one per individual, or per individual and cluster)", z3.BoolVal(ok)))
         if ok and st["parents"] == want_parents:
-            i = z3.Int("i")
-            tot = sum((D.tensor_of(st["s1"][p]).fn((i,)) for p in st["parents"]), z3.RealVal(0))
+            idx = tuple(z3.Int(f"i{q}") for q in range(r.ndim))
+            tot = sum((p.fn(idx) for p in ps), z3.RealVal(0))
             res.append(("entry i = sum over the individual latent variables of their regularity for individual i",
-                        z3.ForAll([i], r.fn((i,)) == tot)))
+                        z3.ForAll(list(idx), z3.Implies(r.in_range(idx), r.fn(idx) == tot))))
         return res
 
 
